@@ -7,15 +7,19 @@ WT=$1; PKG=$2; shift 2
 export GOFLAGS=-mod=mod GOPROXY=off GOSUMDB=off GOTOOLCHAIN=local
 cd $WT || exit 2
 H=$(git -C /repo rev-parse HEAD)
-if [ "$(git rev-parse HEAD)" != "$H" ]; then git stash -q && git checkout -q --detach $H && git stash pop -q || { echo "REBASE CONFLICT"; exit 3; }; fi
+# NOTE: never use `git stash` here - the stash is shared by all worktrees of /repo.
+if [ "$(git rev-parse HEAD)" != "$H" ]; then
+  git diff -- . ':!go.sum' > /tmp/$(basename $WT).rebase.diff && git checkout -q -- . && git checkout -q --detach $H && git apply --3way /tmp/$(basename $WT).rebase.diff || { echo "REBASE CONFLICT"; exit 3; }
+  git reset -q; rm -f /tmp/$(basename $WT).rebase.diff
+fi
 git diff --stat -- . ':!go.sum' | tail -3
 TESTS=$(grep -ohE '^func (Test\w+)' _seed/demo_test.go | sed 's/func //' | paste -sd'|')
 cp _seed/demo_test.go $PKG/zz_seed_demo_test.go
 echo "--- demo WITH change (expect FAIL)"; go test -vet=off -count=1 -run "^($TESTS)\$" ./$PKG/ 2>&1 | grep -E '^(--- FAIL|FAIL|ok|panic)' | head -5
 FILES=$(git diff --name-only -- . ':!go.sum')
-git stash push -q -- $FILES
+git diff -- $FILES > /tmp/$(basename $WT).chg.diff; git apply -R /tmp/$(basename $WT).chg.diff
 echo "--- demo WITHOUT change (expect ok)"; go test -vet=off -count=1 -run "^($TESTS)\$" ./$PKG/ 2>&1 | grep -E '^(--- FAIL|FAIL|ok|panic)' | head -5
-git stash pop -q
+git apply /tmp/$(basename $WT).chg.diff; rm -f /tmp/$(basename $WT).chg.diff
 rm -f $PKG/zz_seed_demo_test.go
 echo "--- baseline tests of touched packages WITH change"
 PK=$(for f in $FILES; do echo ./$(dirname $f); done | sort -u | paste -sd' ')
